@@ -27,7 +27,7 @@ RULE = ('Hypothesis-generated directory trees (1-3 roots in generated order, pac
         'the file importlib loads, and import-line completion for every package. Non-trivial tree: >= 2 roots sharing a top-level name, or a package of depth >= 2, or a generated '
         'name shadowing a stdlib/extension name; distinct by tree spec.')
 ASSUMPTIONS = ['reference = importlib.machinery.PathFinder.find_spec walked component by component along submodule_search_locations over (roots + sys.path)',
-               'only .py files are generated; extension modules are referenced by name (real lib-dynload modules), never copied into the tree',
+               'source trees contain .py files only (plus fake extension files for the listing oracle); real extension files (copies of lib-dynload modules) are placed in separate trees that run in child processes, because loading one cannot be undone',
                'no namespace packages, no module/package twins in one directory (outside the property domain)',
                'names that importlib does not find on the path but that are present in sys.modules (e.g. os.path) only require "no ImportError"']
 
@@ -457,13 +457,162 @@ def selftest():
         shutil.rmtree(base, ignore_errors=True)
 
 
+# ---------------------------------------------------------------------------
+# compiled modules inside generated trees (real extension files copied under other dotted names), one child process per case:
+# loading an extension module is not reversible inside a process
+
+EXT_CHILD = r'''
+import sys, os, json, importlib, importlib.machinery
+spec = json.load(open(sys.argv[1]))
+sys.path.insert(0, spec['repo'])
+from supp.project import Project
+roots = spec['roots']
+for r in spec['on_sys_path']:
+    sys.path.insert(1, r)
+importlib.invalidate_caches()
+def ref(name):
+    search = list(roots) + sys.path
+    sp = None
+    parts = name.split('.')
+    for i in range(len(parts)):
+        try:
+            sp = importlib.machinery.PathFinder.find_spec('.'.join(parts[:i + 1]), search)
+        except Exception:
+            return None
+        if sp is None:
+            return None
+        if i < len(parts) - 1:
+            if sp.submodule_search_locations is None:
+                return None
+            search = list(sp.submodule_search_locations)
+    return os.path.realpath(sp.origin) if sp.origin and os.path.exists(sp.origin) else None
+out = []
+project = Project(list(roots))
+for name in spec['queries']:
+    want = ref(name)
+    loaded_before = name in sys.modules
+    try:
+        m = project.get_module(name)
+        fn = getattr(m, 'filename', None)
+        if fn is None:
+            mod = getattr(m, 'module', None)
+            fn = getattr(mod, '__file__', None)
+            got = ['module', os.path.realpath(fn) if fn else None, getattr(mod, '__name__', None)]
+        else:
+            got = ['source', os.path.realpath(fn), name]
+    except ImportError:
+        got = ['ImportError', None, None]
+    except Exception as e:
+        got = ['exc:' + type(e).__name__, None, None]
+    out.append([name, want, got, loaded_before])
+json.dump(out, sys.stdout)
+'''
+
+EXT_SOURCES = ['_opcode', '_lsprof', '_statistics', '_queue', '_crypt', '_contextvars']
+
+
+def ext_case(layout, on_sys_path, order):
+    """layout: list of (root index, package path tuple, extension stem); -> (problems, stats)"""
+    import json
+    import subprocess
+    import sysconfig
+    dyn = os.path.join(sysconfig.get_path('stdlib'), 'lib-dynload')
+    tag = _TAG[0] if _TAG else '.so'
+    base = tempfile.mkdtemp(prefix='c07x_')
+    try:
+        roots = [os.path.join(base, 'r%d' % i) for i in range(2)]
+        for r in roots:
+            os.makedirs(r)
+        queries = []
+        for ri, pkg, stem in layout:
+            src = os.path.join(dyn, stem + tag)
+            if not os.path.exists(src):
+                continue
+            d = roots[ri]
+            for part in pkg:
+                d = os.path.join(d, part)
+                os.makedirs(d, exist_ok=True)
+                init = os.path.join(d, '__init__.py')
+                if not os.path.exists(init):
+                    with open(init, 'w') as f:
+                        f.write('marker = 1\n')
+            shutil.copy(src, os.path.join(d, stem + tag))
+            dotted = '.'.join(pkg + (stem,))
+            queries += [dotted, dotted + '.zz', '.'.join(pkg + (stem + 'x',))]
+            if pkg:
+                queries.append('.'.join(pkg))
+        queries = [queries[i % len(queries)] for i in order] + sorted(set(queries)) if queries else []
+        if not queries:
+            return [], {}
+        specfile = os.path.join(base, 'spec.json')
+        with open(specfile, 'w') as f:
+            json.dump({'repo': core.REPO, 'roots': roots, 'on_sys_path': [roots[i] for i in on_sys_path], 'queries': queries}, f)
+        child = os.path.join(base, 'child.py')
+        with open(child, 'w') as f:
+            f.write(EXT_CHILD)
+        p = subprocess.run([sys.executable, child, specfile], capture_output=True, text=True, timeout=300,
+                           env=dict(os.environ, PYTHONDONTWRITEBYTECODE='1'))
+        if p.returncode != 0:
+            raise core.HarnessError('C07 extension child failed: ' + p.stderr[-400:])
+        probs = []
+        stats = {'ext-queries': 0, 'ext-found': 0}
+        for name, want, got, loaded_before in json.loads(p.stdout):
+            stats['ext-queries'] += 1
+            want_rel = os.path.relpath(want, base) if want and want.startswith(base) else want
+            got_rel = os.path.relpath(got[1], base) if got[1] and got[1].startswith(base) else got[1]
+            if want is None:
+                if got[0] not in ('ImportError',) and not loaded_before:
+                    probs.append(('resolve:compiled:absent-name-resolved', '%s: importlib finds nothing, supp returns %s' % (name, [got[0], got_rel, got[2]])))
+                continue
+            stats['ext-found'] += 1
+            if got[0] == 'ImportError':
+                probs.append(('resolve:compiled:ImportError-but-importlib-finds-a-file', '%s: importlib would load %s, supp raises ImportError (roots on sys.path: %s)' % (name, want_rel, on_sys_path)))
+            elif got[0].startswith('exc:'):
+                probs.append(('resolve:compiled:%s' % got[0], '%s: supp raised' % name))
+            elif got[1] != want or (got[0] == 'module' and got[2] != name):
+                probs.append(('resolve:compiled:wrong-module', '%s: importlib would load %s, supp analyses %s (module object named %r)' % (name, want_rel, got_rel, got[2])))
+        return probs, stats
+    finally:
+        shutil.rmtree(base, ignore_errors=True)
+
+
+def w_ext(job):
+    from hypothesis import strategies as st
+    idx, seed, n = job
+    sh = Shard()
+    pkgs = [(), ('cpkg',), ('cpkg', 'inner'), ('other',), ('cpkg', 'inner', 'deep')]
+
+    def prop(args):
+        layout, on_sys_path, order = args
+        layout = [(ri, pkgs[pi], EXT_SOURCES[si]) for ri, pi, si in layout]
+        # one file per dotted name and no extension twins of one name in both roots at top level of sys.modules
+        seen = set()
+        layout = [x for x in layout if not ((x[1], x[2]) in seen or seen.add((x[1], x[2])))]
+        probs, stats = ext_case(layout, sorted(set(on_sys_path)), order)
+        sh.case([layout, on_sys_path, order], any(p for _, p, _ in layout), {'layout': [[r, '.'.join(p + (s_,))] for r, p, s_ in layout], 'roots_on_sys_path': sorted(set(on_sys_path))})
+        for k, v in stats.items():
+            sh.count(k, v)
+        sh.count('ext-trees')
+        for sig, detail in probs:
+            if sig not in sh.excluded:
+                raise Found(sig, {'kind': 'ext', 'layout': [[r, list(p), s_] for r, p, s_ in layout], 'on_sys_path': sorted(set(on_sys_path)), 'order': list(order)}, detail)
+    strat = st.tuples(st.lists(st.tuples(st.integers(0, 1), st.integers(0, len(pkgs) - 1), st.integers(0, len(EXT_SOURCES) - 1)), min_size=1, max_size=4),
+                      st.lists(st.integers(0, 1), max_size=2), st.lists(st.integers(0, 20), max_size=5))
+    core.hyp_search(sh, prop, strat, seed, n, shrink=True, max_rounds=3)
+    return sh.result()
+
+
 def run(run):
     selftest()
+    run.pmap(w_ext, [(i, core.derive_seed(run.seed, 'ext', i), run.pick(12, 150)) for i in range(8)])
     n = run.pick(100, 1500)
     run.pmap(w_trees, [(i, core.derive_seed(run.seed, 'trees', i), n) for i in range(16)])
 
 
 def replay(spec):
+    if spec.get('kind') == 'ext':
+        probs, _ = ext_case([(r, tuple(p), s_) for r, p, s_ in spec['layout']], spec['on_sys_path'], spec['order'])
+        return [{'signature': sig, 'case': spec, 'detail': detail} for sig, detail in probs[:1]]
     if 'tree' in spec and 'roots' not in spec:
         spec = spec['tree']
     probs, stats = run_case(spec)
